@@ -144,6 +144,7 @@ class Summarizer:
         self.models = M.ModelTable(self)
         self.cache = {}
         self._loopinfo = {}
+        self.stubs = {}
 
     # ------------------------------------------------------------------ fresh things
     def fresh(self, base, ty=None):
@@ -850,6 +851,19 @@ class Summarizer:
         if callee is None:
             raise Unsupported('call without callee record at %s' % self.where(fr, term))
         if 'inst' in callee:
+            cdef = fr.insts[callee['inst']]['def']
+            stub = self.stubs.get(cdef)
+            if stub is not None:
+                # modular analysis: a local callee replaced by its (separately proved) contract
+                outs = stub(self, st, [self.resolve_deep(st, a) for a in args], dest_ty)
+                res = []
+                for i, val in enumerate(outs):
+                    s2 = st if i == len(outs) - 1 else st.copy()
+                    s2.events.append(('stub', cdef, tuple(self.resolve_deep(s2, a) for a in args), val))
+                    f2 = s2.frames[-1]
+                    self.write_cell(s2, dest[0], dest[1], val)
+                    res.append(self.goto(s2, f2, target))
+                return res
             return self.call_local(st, fr, fr.insts, callee['inst'], args, dest, target)
         res = self.models.apply(st, fr, callee, args, dest_ty, term)
         out = []
